@@ -4,36 +4,47 @@
 (* of association instances over a fixed set of node instances             *)
 (* (InstanceWriteProvider.CreateInstance + create_multi_namespace_instance:*)
 (* one copy in the namespace of the call and one in the namespace of every *)
-(* referenced end).  In every reachable repository TLC compares the        *)
-(* transcribed two-phase traversal (AssocImplOps) with the declarative     *)
-(* requirement of Assoc.tla for EVERY source node and EVERY filter tuple,  *)
-(* and checks the requirement's own laws (symmetry, filter monotonicity).  *)
+(* referenced end) and by ModifyInstance of the non-reference property     *)
+(* `note` of a stored association instance (modify_multi_namespace_        *)
+(* instance: every copy is replaced).  In every reachable repository TLC   *)
+(* compares the transcribed two-phase traversal (AssocImplOps) with the    *)
+(* declarative requirement of Assoc.tla for EVERY source node and EVERY    *)
+(* filter tuple, and checks the requirement's own laws (symmetry, filter   *)
+(* monotonicity).                                                          *)
 (*                                                                         *)
-(* NoShadow = TRUE is a regression switch: CreateInstance stores only the  *)
-(* copy in the namespace of the call.                                      *)
+(* Regression switches:                                                    *)
+(*   NoShadow       CreateInstance stores only the copy in the namespace   *)
+(*                  of the call                                            *)
+(*   ModSharedPath  ModifyInstance puts ONE object into every namespace's  *)
+(*                  store; its path names the namespace of the call        *)
 (***************************************************************************)
 EXTENDS AssocImplOps, SequencesExt
 
-CONSTANTS NodeU,       \* sequence of node records [ns, cls, sv]
+CONSTANTS NodeU,       \* sequence of node records [ns, cls, sv, kid]
           MaxAssoc,    \* max number of association instances
+          MaxMod,      \* max number of ModifyInstance calls
           CreateNs,    \* namespaces in which CreateInstance is called
           ClsU,        \* association classes that are instantiated
           AcU, RcU, RlU,  \* filter tokens quantified over ("" = not given)
-          NoShadow,
+          NoShadow, ModSharedPath,
           GenDepth     \* > 0: record the calls (behaviour emission)
 
 (*------------------- universes used by the configurations ----------------*)
-Nd(ns, c, sv) == [ns |-> ns, cls |-> c, sv |-> sv]
-NodeU4 == <<Nd(1, "N", 1), Nd(1, "NS", 2), Nd(1, "M", 3), Nd(2, "M", 4)>>
-NodeU5 == <<Nd(1, "N", 1), Nd(1, "NS", 2), Nd(1, "M", 3), Nd(2, "M", 4),
-            Nd(2, "N", 5)>>
-NodeU7 == <<Nd(1, "N", 1), Nd(1, "NS", 2), Nd(1, "M", 3), Nd(2, "M", 4),
-            Nd(2, "N", 5), Nd(1, "N", 6), Nd(2, "NS", 7)>>
-AcFull == {"", "AB", "ABS", "AT", "AL", "ZZ", "N"}
-RcFull == {"", "N", "NS", "M", "ZZ", "AB"}
+(* kid = key values: nodes 3/4 (and 1/5, 2/7) are twins: same class and    *)
+(* key values in different namespaces                                      *)
+Nd(ns, c, sv, kid) == [ns |-> ns, cls |-> c, sv |-> sv, kid |-> kid]
+NodeU4 == <<Nd(1, "N", 1, 1), Nd(1, "NSS", 2, 2), Nd(1, "M", 3, 3),
+            Nd(2, "M", 4, 3)>>
+NodeU5 == <<Nd(1, "N", 1, 1), Nd(1, "NSS", 2, 2), Nd(1, "M", 3, 3),
+            Nd(2, "M", 4, 3), Nd(2, "N", 5, 1)>>
+NodeU7 == <<Nd(1, "N", 1, 1), Nd(1, "NSS", 2, 2), Nd(1, "M", 3, 3),
+            Nd(2, "M", 4, 3), Nd(2, "N", 5, 1), Nd(1, "NS", 6, 6),
+            Nd(2, "NSS", 7, 2)>>
+AcFull == {"", "AB", "ABS", "ABSS", "AT", "AL", "ZZ", "N"}
+RcFull == {"", "N", "NS", "NSS", "M", "ZZ", "AB"}
 RlFull == {"", "r1", "r2", "a", "b", "c", "zz"}
-AcSmall == {"", "AB", "ABS", "AT", "AL", "ZZ"}
-RcSmall == {"", "N", "NS", "M"}
+AcSmall == {"", "AB", "ABS", "ABSS", "AT", "AL", "ZZ"}
+RcSmall == {"", "N", "NS", "NSS", "M"}
 RlSmall == {"", "r1", "r2", "a", "b", "c"}
 
 VARIABLES store, hist
@@ -42,6 +53,7 @@ vars == <<store, hist>>
 Nodes == DOMAIN NodeU
 G == [nodes |-> NodeU, assocs |-> SetToSeq(store)]
 Groups == {a.g : a \in store}
+NMod == Cardinality({a.g : a \in {b \in store : b.w # 0}})
 
 EndChoices(c, p) ==
   {i \in Nodes : NodeU[i].cls \in Subtree(RefClass(c)[p])}
@@ -52,6 +64,8 @@ EndTuples(c) ==
   ELSE {<<e1, e2, e3>> : e1 \in EndChoices(c, 1), e2 \in EndChoices(c, 2),
                          e3 \in EndChoices(c, 3)}
 
+Rec(op, c, ends, ns) == [op |-> op, cls |-> c, ends |-> ends, ns |-> ns]
+
 Create(c, ends, ns) ==
   LET g == <<c, ends>>       \* class + keybindings (for AL: stands for id)
       homes == IF NoShadow THEN {ns}
@@ -59,15 +73,28 @@ Create(c, ends, ns) ==
                                   p \in {q \in DOMAIN ends : ends[q] # 0}} IN
   /\ Cardinality(Groups) < MaxAssoc
   /\ g \notin Groups                                  \* else ALREADY_EXISTS
-  /\ store' = store \cup {[cls |-> c, ends |-> ends, ns |-> h, g |-> g] :
-                            h \in homes}
-  /\ hist' = IF GenDepth > 0
-             THEN Append(hist, [cls |-> c, ends |-> ends, ns |-> ns])
+  /\ store' = store \cup {[cls |-> c, ends |-> ends, ns |-> h, g |-> g,
+                            w |-> 0, pns |-> h] : h \in homes}
+  /\ hist' = IF GenDepth > 0 THEN Append(hist, Rec("create", c, ends, ns))
              ELSE hist
 
-Init == store = {} /\ hist = <<>>
-Next == \E c \in ClsU, ns \in CreateNs : \E ends \in EndTuples(c) :
-           Create(c, ends, ns)
+(* ModifyInstance(note := 1) addressed to the copy of g in namespace ns *)
+Modify(g, ns) ==
+  /\ NMod < MaxMod
+  /\ \E a \in store : a.g = g /\ a.ns = ns /\ a.w = 0
+  /\ store' = {IF a.g = g
+               THEN [a EXCEPT !.w = 1,
+                              !.pns = IF ModSharedPath THEN ns ELSE a.ns]
+               ELSE a : a \in store}
+  /\ hist' = IF GenDepth > 0 THEN Append(hist, Rec("modify", g[1], g[2], ns))
+             ELSE hist
+
+Init == /\ store = {}
+        /\ hist = IF GenDepth > 0 THEN <<[op |-> "nodes", nodes |-> NodeU]>>
+                  ELSE <<>>
+Next == \/ \E c \in ClsU, ns \in CreateNs : \E ends \in EndTuples(c) :
+            Create(c, ends, ns)
+        \/ \E a \in store : Modify(a.g, a.ns)
 Spec == Init /\ [][Next]_vars
 
 (*----------------------- Impl = declarative ------------------------------*)
@@ -79,9 +106,12 @@ AssocAgree(g, near, op, x, ac, rc, ro, rr) ==
   ELSE r.k = "err4" /\ AqMayErr(ac, rc, ro, rr)
 
 RefAgree(g, near, x, rc, ro) ==
-  LET r == ImplRefOp(g, x, rc, ro) IN
-  IF r.k = "ok" THEN {g.assocs[j].g : j \in r.S} = RefsVia(near, x, rc, ro)
-  ELSE r.k = "err4" /\ RqMayErr(rc, ro)
+  \A op \in {"AN", "A"} :
+     LET r == ImplRefOp(op, g, x, rc, ro) IN
+     IF r.k = "ok"
+     THEN /\ 0 \notin r.S
+          /\ {g.assocs[j].g : j \in r.S} = RefsVia(near, x, rc, ro)
+     ELSE r.k = "err4" /\ RqMayErr(rc, ro)
 
 (* AssociatorNames and Associators are the same call in the code; the      *)
 (* second one is only evaluated when the regression switch separates them  *)
@@ -89,7 +119,11 @@ OpsU == IF SwapIn = "" THEN {"AN"} ELSE {"AN", "A"}
 
 (* SwapIn = "": phase 1 depends on (AssocClass, Role) only; it is evaluated *)
 (* once per pair and shared by all (ResultClass, ResultRole) (same values   *)
-(* as ImplAssocOp, fewer TLC evaluations)                                   *)
+(* as ImplAssocOp, fewer TLC evaluations).  When phase 1 finds nothing and  *)
+(* no stored instance of the AssocClass subtree touches x, both sides are   *)
+(* unions over the empty set for every (ResultClass, ResultRole): skipped,  *)
+(* except in the initial state where the state-independent error branch is  *)
+(* evaluated for every tuple.                                               *)
 ImplEqualsDecl ==
   LET g == G IN
   \A x \in Nodes :
@@ -98,32 +132,43 @@ ImplEqualsDecl ==
         THEN \A ac \in AcU, ro \in RlU :
                LET refs == ImplRefPaths(g, x, ac, ro)
                    nearac == {b \in near : ClassOk(b.cls, ac)} IN
-               \A rc \in RcU, rr \in RlU :
-                  IF BadFilterClass(ac, rc) THEN AqMayErr(ac, rc, ro, rr)
-                  ELSE ImplPhase2(g, x, rc, rr, refs) \ {x}
-                         = AssocsVia(g, nearac, x, "", rc, ro, rr) \ {x}
+               /\ PathsInStore(g, x, refs)
+               /\ \/ refs = {} /\ nearac = {} /\ store # {}
+                  \/ \A rc \in RcU, rr \in RlU :
+                       IF BadFilterClass(ac, rc) THEN AqMayErr(ac, rc, ro, rr)
+                       ELSE ImplPhase2(g, x, rc, rr, refs) \ {x}
+                              = AssocsVia(g, nearac, x, "", rc, ro, rr) \ {x}
         ELSE \A ac \in AcU, rc \in RcU, ro \in RlU, rr \in RlU, op \in OpsU :
                AssocAgree(g, near, op, x, ac, rc, ro, rr)
      /\ \A rc \in AcU, ro \in RlU : RefAgree(g, near, x, rc, ro)
 
 (*--------------- laws of the requirement itself --------------------------*)
 DeclSymmetric ==
-  LET g == G IN
+  LET g == G
+      T == [x \in Nodes |->
+              LET near == Touching(g, x) IN
+              [ac \in AcU |-> [ro \in RlU |-> [rr \in RlU |->
+                  AssocsVia(g, near, x, ac, "", ro, rr)]]]] IN
   \A x \in Nodes, y \in Nodes : \A ac \in AcU, ro \in RlU, rr \in RlU :
-     (y \in Assocs(g, x, ac, "", ro, rr)) <=> (x \in Assocs(g, y, ac, "", rr, ro))
+     (y \in T[x][ac][ro][rr]) <=> (x \in T[y][ac][rr][ro])
 
+(* the declarative sets of one source are tabulated once per state *)
 DeclMonotone ==
   LET g == G IN
   \A x \in Nodes :
-     LET near == Touching(g, x) IN
-     \A ac \in AcU, rc \in RcU, ro \in RlU, rr \in RlU :
-        LET S == AssocsVia(g, near, x, ac, rc, ro, rr) IN
-        /\ S \subseteq AssocsVia(g, near, x, "", rc, ro, rr)
-        /\ S \subseteq AssocsVia(g, near, x, ac, "", ro, rr)
-        /\ S \subseteq AssocsVia(g, near, x, ac, rc, "", rr)
-        /\ S \subseteq AssocsVia(g, near, x, ac, rc, ro, "")
-        /\ RefsVia(near, x, ac, ro) \subseteq RefsVia(near, x, "", ro)
-        /\ RefsVia(near, x, ac, ro) \subseteq RefsVia(near, x, ac, "")
+     LET near == Touching(g, x)
+         T == [ac \in AcU |-> [rc \in RcU |-> [ro \in RlU |-> [rr \in RlU |->
+                 AssocsVia(g, near, x, ac, rc, ro, rr)]]]]
+         R == [ac \in AcU |-> [ro \in RlU |-> RefsVia(near, x, ac, ro)]] IN
+     \/ near = {} /\ store # {}      \* every set is a union over nothing
+     \/ \A ac \in AcU, rc \in RcU, ro \in RlU, rr \in RlU :
+          LET S == T[ac][rc][ro][rr] IN
+          /\ S \subseteq T[""][rc][ro][rr]
+          /\ S \subseteq T[ac][""][ro][rr]
+          /\ S \subseteq T[ac][rc][""][rr]
+          /\ S \subseteq T[ac][rc][ro][""]
+          /\ R[ac][ro] \subseteq R[""][ro]
+          /\ R[ac][ro] \subseteq R[ac][""]
 
 (* class level (state independent; evaluated in the initial state only):   *)
 (* the Names and the full operation of the code-shaped machine agree       *)
@@ -134,5 +179,5 @@ ClassNamesEqFull ==
         ImplClassAssocOp("AN", c, ex, ac, rc, ro, rr)
            = ImplClassAssocOp("A", c, ex, ac, rc, ro, rr)
 
-GenConstraint == GenDepth = 0 \/ Len(hist) <= GenDepth
+GenConstraint == GenDepth = 0 \/ Len(hist) <= GenDepth + 1
 =============================================================================
